@@ -4,6 +4,7 @@ from __future__ import annotations
 import concurrent.futures as cf
 import json
 import re
+import shutil
 import time
 
 from vlib import core
@@ -14,7 +15,7 @@ PROP = 'C18'
 MANIFEST = dict(
     technique='TLA+ model (PathRes) of path resolution with component-wise containment, checked by TLC; the whole bounded input family executed on a real directory tree through RawFileSystem / FileSystemChain / unify_path and every record validated by TLC (PathResTrace)',
     category='model_checking',
-    text='TLC exhausts all paths of up to 4 (thorough: 5) components over {.., ., empty, sub, in.txt, rootx, root, B, A} x relative / leading separator / absolute x forward, backward and mixed separators x root spelled with and without trailing separator x direct or through a FileSystemChain member with prefix "sub", with the invariant that every outcome is RootEscapeError or a file under the root; a string-prefix containment variant is checked to be refuted. The same family (coverage handshake against the model\'s state count) is run on a real directory tree with distinct file contents through `in`, [], open_bin, open_str and walk_folder; TLC compares each outcome with Resolve and, independently of the resolution, rejects any record carrying the content of a file outside the root. packlist.unify_path is validated the same way. Seeded random longer paths with arbitrary separators and further sibling names extend the family.',
+    text='TLC exhausts path families over the components {.., ., empty, sub, in.txt, rootx, root, B, A}: quick = all paths of <= 3 components x relative / leading separator / absolute (world directory) x forward, backward and mixed separators x root spelled with and without trailing separator x direct or through a FileSystemChain member with prefix "sub", plus all relative forward-slash paths of <= 4 components; thorough = the full product for <= 4 components plus all relative paths of <= 5 components x 3 separator patterns x 2 root spellings x direct/chain, with the invariant that every outcome is RootEscapeError or a file under the root; a string-prefix containment variant is checked to be refuted. The same family (coverage handshake against the model\'s state count) is run on a real directory tree with distinct file contents through `in`, [], open_bin, open_str and walk_folder; TLC compares each outcome with Resolve and, independently of the resolution, rejects any record carrying the content of a file outside the root. packlist.unify_path is validated the same way. Seeded random longer paths with arbitrary separators and further sibling names extend the family.',
     design_ref='4 (C18)',
     note='POSIX semantics (backslash is a name character for the OS; the chain rewrites it to "/"), stated in the spec. No symbolic links in the world. Trusts TLC and os.path.realpath / file.name for the location of what was opened.',
 )
@@ -99,16 +100,20 @@ def run(tier: str, seed: int) -> int:
             files.append(merged)
         files += [work.path('unify.ndjson'), work.path('random.ndjson')]
         # 3. TLC validates every record
-        allm, total, samples = [], 0, []
-        for p in files:
-            mism, st = core.validate_records('PathResTrace', 'PathResTrace.cfg', p, work=work, timeout=3000)
-            allm += mism
-            total += st['records']
-            cov['states'] += st['states']
-            cov['transitions'] += st['transitions']
-            with open(p, encoding='utf-8') as f:
-                first = json.loads(f.readline())
-            samples.append({k: first[k] for k in ('k', 'cfg', 'str', 'has', 'get', 'walk', 'e', 'res') if k in first})
+        samples = []
+        merged_all = work.path('all.ndjson')
+        with open(merged_all, 'w', encoding='utf-8') as mf:
+            for p in files:
+                with open(p, encoding='utf-8') as f:
+                    first = f.readline()
+                    mf.write(first)
+                    shutil.copyfileobj(f, mf)
+                first = json.loads(first)
+                samples.append({k: first[k] for k in ('k', 'cfg', 'str', 'has', 'get', 'walk', 'e', 'res') if k in first})
+        allm, st = core.validate_records('PathResTrace', 'PathResTrace.cfg', merged_all, work=work, timeout=3000)
+        total = st['records']
+        cov['states'] += st['states']
+        cov['transitions'] += st['transitions']
         if any(m['clause'].startswith('input.') for m in allm):
             bad = next(m for m in allm if m['clause'].startswith('input.'))
             raise MachineryError(f'driver input not in the model family / mis-encoded: {bad["clause"]} {bad["rec"].get("str")!r}')
